@@ -31,13 +31,30 @@ Expected(t) == Render(CxOf(t), t.prog, EnvOf(t.env))
 Perms(n) == {p \in [1..n -> 1..n] : \A i, j \in 1..n : p[i] = p[j] => i = j}
 ExpectedUnder(t, p) == Render([CxOf(t) EXCEPT !.perm = p], t.prog, EnvOf(t.env))
 
+\* What is bound when the render is over (C12: a variable holds exactly what was assigned or captured; a loop gives its
+\* variable and forloop back - and binds nothing else).  The harness's tag at the end of the template reports every
+\* name bound to something other than nil, with the kind and text of strings, integers and booleans.
+FinalEnvOK(t, exp) ==
+  ("finalbinds" \notin DOMAIN t) \/
+  LET obsNames == {t.finalbinds[i][1] : i \in 1..Len(t.finalbinds)}
+      refNames == {x \in DOMAIN exp.env : ~IsNil(exp.env[x])}
+      undecided == \E x \in DOMAIN exp.env : IsUnspec(exp.env[x])
+  IN  undecided \/
+      (/\ obsNames = refNames
+       /\ \A i \in 1..Len(t.finalbinds) :
+            LET e == t.finalbinds[i] r == exp.env[e[1]] IN
+              CASE e[2] = "str" -> r.k = "str" /\ r.v = e[3]
+                [] e[2] = "bool" -> r.k = "bool" /\ ToText(r).s = e[3]
+                [] e[2] = "int" -> (r.k = "int" /\ ToText(r).s = e[3]) \/ r.k = "big"
+                [] OTHER -> r.k \notin {"str", "bool"})
+
 \* "ok" | "unspec" | "REJECT"
 Verdict(t, exp) ==
   CASE t.outcome = "unstable" -> "REJECT"        \* re-rendering the parsed template gave a different result
     [] t.outcome = "snapdiff" -> "REJECT"        \* after a loop its variable / forloop is not bound to the very value it was bound to before (C12)
     [] t.outcome = "addrleak" -> "REJECT"        \* the output holds a memory address (C02)
     [] t.outcome = "repdiff" -> "REJECT"         \* the same bindings in another Go representation gave a different result (C18)
-    [] exp.status = "ok" -> IF t.outcome = "ok" /\ t.out = exp.out THEN "ok" ELSE "REJECT"
+    [] exp.status = "ok" -> IF t.outcome = "ok" /\ t.out = exp.out /\ FinalEnvOK(t, exp) THEN "ok" ELSE "REJECT"
     [] exp.status = "error" ->
          IF t.outcome = "error" /\ Fld(t, "srcerr", TRUE)
             /\ (exp.err.line < 0 \/ ~Fld(t, "chkline", FALSE) \/ t.errline = exp.err.line)
